@@ -26,6 +26,13 @@ impl crate::store::Datastore for NullStore {
     async fn mark_succeeded(&self, _t: &TrampolineInfo, _a: &crate::store::AttemptId, _p: Vec<u8>) -> Result<()> { Err(anyhow!("null")) }
 }
 
+/// Takes the table mutex (private field, private value type) and returns the guard type-erased, so that the harness
+/// can create lock contention deterministically: dropping the box releases the lock.
+pub async fn probe_lock_table<B, N, P, S>(m: &HtlcManager<B, N, P, S>) -> Box<dyn std::any::Any + Send>
+where B: BlockProvider + Send + Sync + 'static, N: NotificationService + Send + Sync + 'static, P: PaymentProvider + Send + Sync + 'static, S: Datastore + Send + Sync + 'static {
+    Box::new(Arc::clone(&m.payments).lock_owned().await)
+}
+
 pub fn policy_of(v: &serde_json::Value) -> TrampolineRoutingPolicy {
     TrampolineRoutingPolicy {
         fee_base_msat: v[0].as_u64().unwrap() as u32,
